@@ -28,14 +28,70 @@ def prop_hook(P):
     return hook
 
 
+def _is_kind_expr(P, F, e):
+    """`request[0]` of an array<unsigned int, 3>, directly or through a const local initialised with it"""
+    e = sc(e)
+    if e is not None and e.get("k") == "DeclRefExpr":
+        for v in F.walk():
+            if v.get("k") == "VarDecl" and v.get("r") == e["r"] and v.get("c") and "const" in (v.get("t") or ""):
+                e = sc(v["c"][0])
+                break
+    s = astq.subscript(e) if e is not None else None
+    return bool(s and sc(s[1]).get("k") == "IntegerLiteral" and sc(s[1])["v"] == 0 and "array<unsigned int, 3>" in sc(s[0]).get("t", "").replace("std::", ""))
+
+
+def _kind_values(P, F, c):
+    """the kind literals of a condition `kind == a || kind == b ...`, else None"""
+    c = sc(c)
+    if c.get("k") == "BinaryOperator" and c.get("op") == "||":
+        l, r = _kind_values(P, F, c["c"][0]), _kind_values(P, F, c["c"][1])
+        return None if l is None or r is None else l + r
+    if c.get("k") == "BinaryOperator" and c.get("op") == "==":
+        a, b = sc(c["c"][0]), sc(c["c"][1])
+        if b.get("k") != "IntegerLiteral":
+            a, b = b, a
+        if b.get("k") == "IntegerLiteral" and _is_kind_expr(P, F, a):
+            return [b["v"]]
+    return None
+
+
 def find_switch_on_kind(P, F):
     out = []
     for n in F.walk():
         if n.get("k") == "SwitchStmt":
             c = sc(n["c"][0])
-            s = astq.subscript(c)
-            if s and sc(s[1]).get("k") == "IntegerLiteral" and sc(s[1])["v"] == 0 and "array<unsigned int, 3>" in sc(s[0]).get("t", "").replace("std::", ""):
+            if _is_kind_expr(P, F, c):
                 out.append(n)
+    if out:
+        return out
+    # the same dispatch written as an if / else-if chain on the kind: presented as a switch (the head `if` with a case table)
+    for n in F.walk():
+        if n.get("k") != "IfStmt" or _kind_values(P, F, n["c"][0]) is None:
+            continue
+        par = F.parent.get(n["i"])
+        if par is not None and par.get("k") == "IfStmt" and len(par["c"]) > 2 and par["c"][2] is n:
+            continue        # not the head of the chain
+        table = {}
+        cur = n
+        okc = True
+        while cur is not None and cur.get("k") == "IfStmt":
+            vals = _kind_values(P, F, cur["c"][0])
+            if vals is None:
+                okc = False
+                break
+            body = cur["c"][1]
+            stmts = [x for x in (body["c"] if body.get("k") == "CompoundStmt" else [body]) if x is not None]
+            for v in vals:
+                table[v] = stmts
+            nxt = cur["c"][2] if len(cur["c"]) > 2 else None
+            if nxt is not None and nxt.get("k") != "IfStmt":
+                table["default"] = [x for x in (nxt["c"] if nxt.get("k") == "CompoundStmt" else [nxt]) if x is not None]
+                nxt = None
+            cur = nxt
+        if okc and len(table) >= 3:
+            syn = dict(n)
+            syn["ifchain"] = table
+            out.append(syn)
     return out
 
 
@@ -1016,16 +1072,31 @@ def wrapper2d(P, rep, counter, rule="LAYOUT.2D"):
                     return {0: ux, 1: uy}.get(i["v"])
             return None
         ev = norm.Sym(P, F2, inline_locals=False, hook=hook)
-        for n in order:
+        # locals declared in the velocity case hold the value of their initialiser at that point (the stores follow in order)
+        case_decls = [v for st_ in cases.get(5, []) for v in F2.walk(st_) if v.get("k") == "VarDecl" and v.get("c")
+                      and (v.get("t") or "").replace("const ", "").strip() in ("double", "float")]
+        for n in sorted(order + case_decls, key=lambda q: q["i"]):
+            if n.get("k") == "VarDecl":
+                try:
+                    ev.env[n["r"]] = sp.expand(ev(n["c"][0]))
+                except Exception:
+                    pass
+                continue
             s = astq.subscript(n["c"][0])
             off = int(sp.expand(sym(s[1]) - C))
             state[off] = sp.expand(ev(n["c"][1]))
         want = {0: sp.expand(ux * V[0] + uy * V[1]), 1: V[2], 2: sp.Integer(0)}
         bad = [k for k in (0, 1, 2) if sp.expand(state[k] - want[k]) != 0]
         # the three stores are unconditional inside the velocity case
+        chain_ids = set()
+        if sw.get("ifchain") is not None:
+            cur_ = sw
+            while cur_ is not None and cur_.get("k") == "IfStmt":
+                chain_ids.add(cur_["i"])
+                cur_ = cur_["c"][2] if len(cur_["c"]) > 2 else None
         for n in order:
             for a in F2.ancestors(n):
-                if a.get("k") == "SwitchStmt":
+                if a.get("k") == "SwitchStmt" or a.get("i") in chain_ids:
                     break
                 if a.get("k") in ("IfStmt", "ConditionalOperator"):
                     cond_txt = norm.render(P, a["c"][0])[:80]
